@@ -80,7 +80,9 @@ class TableEntry (object):
     """
     Exact matches effectively have an "infinite" priority
     """
-    return self.priority if self.match.is_wildcarded else (1<<16) + 1
+    # (Exact means: no wildcard bit in the match as it appears on the wire)
+    m = self.match
+    return self.priority if m._wire_wildcards(m.wildcards) & OFPFW_ALL else (1<<16) + 1
 
   def is_matched_by (self, match, priority=None, strict=False, out_port=None):
     """
